@@ -55,18 +55,21 @@ func (f *Loop) Call(s *slip.Scope, args slip.List, depth int) (result slip.Objec
 top:
 	for {
 		for _, form := range args {
-			if tr, ok := ns.Eval(form, d2).(*slip.ReturnResult); ok {
+			switch tr := ns.Eval(form, d2).(type) {
+			case *slip.ReturnResult:
 				if tr.Tag == nil {
 					result = tr.Result
-					break top
-				}
-				if s.Block {
+				} else {
+					// A return-from to an enclosing block.
 					result = tr
-					break top
 				}
-				// slip.ErrorPanic(s, depth, "return from unknown block: %s", tr.Tag)
+				break top
+			case slip.NonLocalExit:
+				// A go to a tag of an enclosing tagbody.
+				result = tr
+				break top
 			}
-			// Anything other than ReturnResult continues.
+			// Anything other than a non-local exit continues.
 		}
 	}
 	return
